@@ -19,8 +19,19 @@ def parseBits? (s : String) : Option (List Bool) :=
   if s = "-" then some [] else
     s.toList.mapM (fun c => if c = '0' then some false else if c = '1' then some true else none)
 
+/-- index forms: `S!a!b!c` slice (`_` = None), `F!i,j,..` / `F!-` positions, `M!0110` / `M!-` boolean mask -/
+def parseIdx? (s : String) : Option TIdx :=
+  match s.splitOn "!" with
+  | ["S", a, b, c] => do pure (TIdx.slice ⟨← parseOptInt? a, ← parseOptInt? b, ← parseOptInt? c⟩)
+  | ["F", l] => do pure (TIdx.fancy (← parseIntList? l))
+  | ["M", m] => do pure (TIdx.mask (← parseBits? m))
+  | _ => none
+
 def parseOp? (tok : String) : Option Op :=
   match tok.splitOn ":" with
+  | ["setv", t, idx, v] => do pure (Op.setIdxSeq (← t.toNat?) (← parseIdx? idx) (← v.toNat?))
+  | ["setl", t, idx, els] => do pure (Op.setIdxList (← t.toNat?) (← parseIdx? idx) (← parseElems? els))
+  | ["setk", t, idx, k] => do pure (Op.setIdxNum (← t.toNat?) (← parseIdx? idx) (← k.toInt?))
   | ["new", b] => b.toNat?.map Op.new
   | ["app", t, w, dt, el] => do pure (Op.append (← t.toNat?) (← w.toNat?) (← dt.toNat?) (← parseElem? el))
   | ["ext", t, w, dt, els] => do pure (Op.extend (← t.toNat?) (← w.toNat?) (← dt.toNat?) (← parseElems? els))
@@ -82,6 +93,9 @@ def parseTOp? (tok : String) : Option TOp :=
   | ["tsl", t, a, b, c] => do
       pure (TOp.tget (← t.toNat?) (.slice ⟨← parseOptInt? a, ← parseOptInt? b, ← parseOptInt? c⟩))
   | ["tidx", t, l] => do pure (TOp.tget (← t.toNat?) (.fancy (← parseIntList? l)))
+  | ["tmask", t, m] => do pure (TOp.tget (← t.toNat?) (.mask (← parseBits? m)))
+  | ["tcopy", t] => do pure (TOp.tcopy (← t.toNat?))
+  | ["tadd", t, u, w] => do pure (TOp.tadd (← t.toNat?) (← u.toNat?) (← w.toNat?))
   | ["text", t, u, w] => do pure (TOp.textend (← t.toNat?) (← u.toNat?) (← w.toNat?))
   | ["tset", t, k, s, fl, w] => do
       pure (TOp.tset (← t.toNat?) (← k.toNat?) (← s.toNat?) (← parseFlag? fl) (← w.toNat?))
